@@ -86,8 +86,8 @@ class Harness:
         running = {}   # pid -> (name, read fd, t0)
         trivial = []
         for name, cond in list(pending):
-            if cond is False or cond is True:
-                results[name] = ("unsat" if cond is False else "sat", {} if cond is True else None)
+            if cond is False:
+                results[name] = ("unsat", None)
                 self.queries.append({"name": name, "result": results[name][0], "seconds": 0.0})
                 pending.remove((name, cond))
         while pending or running:
